@@ -334,4 +334,24 @@ example : ∃ e, parse fAll (str "Noise_XX_25519_AESGCM_SHA256é") = .err (.patt
 
 end Examples
 
+/-- The standalone `FromStr` of a modifier (which inherits `u8::from_str`'s optional `+` sign)
+    coincides with the name parser's modifier function on every string without a `+`: in
+    particular on every item of a protocol name's modifier list, which is what lies between the
+    `+` separators. -/
+theorem parseU8Signed_eq (t : Bytes) (h : (43 : UInt8) ∉ t) : parseU8Signed t = parseU8 t := by
+  unfold parseU8Signed
+  split
+  · rename_i rest
+    exact absurd List.mem_cons_self h
+  · rfl
+
+theorem parseModifierDirect_eq (s : Bytes) (h : (43 : UInt8) ∉ s) : parseModifierDirect s = parseModifier s := by
+  unfold parseModifierDirect parseModifier
+  rw [parseU8Signed_eq (s.drop 3) (fun hc => h (List.mem_of_mem_drop hc))]
+
+/-- ... and it differs exactly there: `psk+1` is accepted by the standalone parser only. -/
+example : parseModifierDirect [112, 115, 107, 43, 49] = .ok (.psk 1) ∧
+    parseModifier [112, 115, 107, 43, 49] = .err (.pattern .invalidPsk) := by
+  decide +kernel
+
 end SnowVerif.Theorems.C13
